@@ -56,6 +56,8 @@ enum Step {
     GradualNext,
     GradualPerfNew { map: u8, dst: u8, s: u8 },
     GradualPerfNext,
+    /// decode a text from scratch and ask for its bpm (shares nothing by reference)
+    Decode,
 }
 
 #[derive(Default)]
@@ -65,7 +67,7 @@ struct ThreadState {
 }
 
 struct World {
-    maps: Vec<Beatmap>,
+    maps: &'static [Beatmap],
     setts: Vec<Setting>,
 }
 
@@ -94,6 +96,11 @@ impl World {
                 "new".to_owned()
             }
             Step::GradualPerfNext => format!("{:?}", st.gp.as_mut().and_then(|g| g.next(ScoreState { n300: 1, max_combo: 1, ..ScoreState::new() }))),
+            Step::Decode => {
+                let o = |k, gap, pos, sound, col| Obj { kind: k, gap, pos, sound, col };
+                let m = MapSpec::new(0, vec![o(Kind::Circle, 0, PosK::Same, 0, 0), o(Kind::Slider2, 150, PosK::Far, 8, 0), o(Kind::Spinner(600), 300, PosK::Same, 4, 0)]).decode();
+                format!("{m:?} {}", m.bpm())
+            }
         };
         digest(&canon(&out))
     }
@@ -122,6 +129,68 @@ fn jobs(len: usize) -> Vec<Vec<Step>> {
     c.truncate(len);
     v.push(c);
     v
+}
+
+// ---------------------------------------------------------------- (D) shared-access preemption (E4)
+
+/// Jobs of at most two calls; the second call of a job often repeats the first (a warm cache is where check-then-use shows).
+fn guard_jobs() -> Vec<Vec<Step>> {
+    let twice = |a: Step| vec![a, a];
+    vec![
+        vec![Step::Difficulty { map: 0, dst: 0, s: 0 }, Step::Performance { map: 0, dst: 0, s: 0 }],
+        twice(Step::Difficulty { map: 1, dst: 1, s: 2 }),
+        twice(Step::Difficulty { map: 1, dst: 1, s: 3 }),
+        vec![Step::Convert { map: 0, dst: 3, s: 2 }, Step::Difficulty { map: 0, dst: 3, s: 2 }],
+        vec![Step::Difficulty { map: 0, dst: 3, s: 3 }, Step::Strains { map: 0, dst: 3, s: 3 }],
+        vec![Step::Difficulty { map: 0, dst: 3, s: 4 }, Step::Performance { map: 0, dst: 3, s: 4 }],
+        vec![Step::GradualNew { map: 1, dst: 1, s: 2 }, Step::GradualNext],
+        vec![Step::Difficulty { map: 0, dst: 2, s: 1 }, Step::Performance { map: 0, dst: 2, s: 1 }],
+        twice(Step::Difficulty { map: 2, dst: 3, s: 3 }),
+        vec![Step::GradualPerfNew { map: 0, dst: 3, s: 2 }, Step::GradualPerfNext],
+        vec![Step::Convert { map: 0, dst: 1, s: 3 }, Step::Strains { map: 0, dst: 1, s: 3 }],
+        vec![Step::Decode, Step::Decode],
+    ]
+}
+
+thread_local! {
+    static GUARD_TS: std::cell::RefCell<ThreadState> = std::cell::RefCell::new(ThreadState::default());
+}
+
+/// Execution process of E4: `--guard-run <job0> <job1|solo> <choices> <hot>`; one schedule, wire format on stdout.
+fn guard_run(args: &[String]) {
+    use vh::guard;
+    guard::arm_alarm(30);
+    let jobs = guard_jobs();
+    let j0: usize = args[0].parse().expect("job index");
+    let j1: Option<usize> = args[1].parse().ok();
+    let prefix = guard::choices_from_arg(&args[2]);
+    let hot = guard::hot_from_arg(&args[3]);
+    let (maps, input_region) = guard::place_in_own_pages(maps(), "Beatmap structs shared by reference");
+    let mut regions = match guard::library_static_regions() {
+        Ok(r) => r,
+        Err(e) => {
+            eprintln!("guard: {e}");
+            std::process::exit(3);
+        }
+    };
+    regions.push(input_region);
+    for (i, r) in regions.iter().enumerate() {
+        println!("G {i} {} {}", r.len, r.name);
+    }
+    let world = World { maps, setts: setts() };
+    let job_of = |tid: u8| if tid == 0 { j0 } else { j1.unwrap_or(0) };
+    let calls = [jobs[j0].len(), j1.map_or(0, |j| jobs[j].len())];
+    let out = guard::run_two(guard::RunCfg { regions, hot, prefix, max_points: 20_000 }, calls, &|tid, c| GUARD_TS.with(|ts| world.exec(&mut ts.borrow_mut(), jobs[job_of(tid)][c])));
+    print!("{}", out.to_wire());
+    // sticky corruption: the same jobs once more, one after the other, unguarded
+    for (t, j) in [Some(j0), j1].into_iter().enumerate() {
+        if let Some(j) = j {
+            let mut st = ThreadState::default();
+            for (i, step) in jobs[j].iter().enumerate() {
+                println!("Q {t} {i} {:x}", world.exec(&mut st, *step));
+            }
+        }
+    }
 }
 
 // ---------------------------------------------------------------- (B) hand-over
@@ -187,6 +256,11 @@ fn all_sequences(t: u8, n: usize) -> Vec<Vec<u8>> {
 }
 
 fn main() {
+    let argv: Vec<String> = std::env::args().collect();
+    if argv.get(1).map(String::as_str) == Some("--guard-run") {
+        guard_run(&argv[2..]);
+        return;
+    }
     let child = std::env::args().any(|a| a == "--child");
     if child {
         std::env::set_var("VERIF_NO_EVIDENCE", "1");
@@ -195,8 +269,8 @@ fn main() {
     ctx.rule("(A) interference: every assignment of jobs (difficulty / performance / strains calls, gradual difficulty and gradual performance walks split into their steps; taiko and mania conversions with two different Random seeds and key mods; shared &Beatmap) from a pool to T threads and every interleaving of the threads' calls (T=2 x 3 calls: 20 schedules per assignment; T=3 x 2 calls: 90; thorough T=3 x 3: 1680) executed on real OS threads under the baton scheduler; oracle = every call returns the value it returns when its thread runs alone, shared maps unchanged. (B) hand-over: every gradual calculator that is Send in this build (all of them in the `sync` build, which the default build runs as a child) is moved between T <= 3 threads at the step boundaries: all T^n ownership sequences, n <= 4 (quick) / 5, incl. create on one thread and drop on another; oracle = the single-thread sequence. (C) free-running: the (A) job bodies on 16 unsynchronised threads for a fixed number of rounds against the sequential table — sampling, reported separately under coverage.free_running and not part of the exhaustive claim; non-trivial = schedules with more than one thread / ownership sequences that change thread");
     ctx.assume("rosu-pp has no synchronisation that two calculations share (checked by reading: no atomics, locks, statics or thread-locals outside util/sync.rs), so a scheduler that switches at synchronisation operations sees each public call as one atomic step; instruction-level races inside a call are outside a cooperative scheduler and are only sampled by (C)");
 
-    let world = World { maps: maps(), setts: setts() };
-    let pristine = world.maps.clone();
+    let world = World { maps: Box::leak(maps().into_boxed_slice()), setts: setts() };
+    let pristine = world.maps.to_vec();
     let quick = ctx.quick();
 
     // the `sync` build of this checker runs concurrently as a child
@@ -273,12 +347,12 @@ fn main() {
             }
         });
     }
-    if world.maps != pristine {
+    if world.maps != &pristine[..] {
         ctx.add_violation(vh::ctx::Violation { class: "shared_map_modified".into(), universe: "A-interference".into(), idx: 0, msg: "a map shared by reference was modified".into() });
     }
 
     // ---- (B)
-    let walkers = walkers(&world.maps);
+    let walkers = walkers(world.maps);
     let n_steps = ctx.pick(4usize, 5);
     for busy in [false, true] {
     for (wi, (wname, mk)) in walkers.iter().enumerate() {
@@ -353,6 +427,130 @@ fn main() {
             drop(slot);
         });
     }
+    }
+
+    // ---- (D) shared-access preemption (default build only; the sync build shares the same statics)
+    if !child && ctx.worker.is_none() {
+        use std::sync::atomic::{AtomicBool, AtomicU64, Ordering};
+        use vh::guard;
+        let exe = std::env::current_exe().expect("own path");
+        let gjobs = guard_jobs();
+        // profile: every job alone (reference digests; which guarded locations it writes)
+        let mut refs: Vec<Vec<u64>> = Vec::new();
+        let mut hot: Vec<(u16, u32)> = Vec::new();
+        let mut region_names: Vec<String> = Vec::new();
+        let (mut solo_reads, mut solo_writes) = (0u64, 0u64);
+        let mut ok = true;
+        for j in 0..gjobs.len() {
+            match guard::run_child(&exe, &["--guard-run".into(), j.to_string(), "solo".into()], &[], &[]) {
+                Ok((o, _)) => {
+                    if o.probe[0] != o.results[0] {
+                        ctx.add_violation(vh::ctx::Violation { class: "guard_solo_differs".into(), universe: "D-shared-access/profile".into(), idx: j as u64, msg: format!("job {:?} alone: the calls return {:x?} and, repeated in the same process, {:x?}", gjobs[j], o.results[0], o.probe[0]) });
+                    }
+                    refs.push(o.results[0].clone());
+                    hot.extend(o.written.iter().copied());
+                    solo_reads += o.reads;
+                    solo_writes += o.writes;
+                    region_names = o.region_names;
+                }
+                Err(e) => {
+                    ctx.machinery_error(format!("E4 profile run of job {j}: {e}"));
+                    ok = false;
+                    break;
+                }
+            }
+        }
+        hot.sort_unstable();
+        hot.dedup();
+        if ok {
+            let pairs: Vec<(usize, usize)> = (0..gjobs.len()).flat_map(|a| (a..gjobs.len()).map(move |b| (a, b))).collect();
+            let bound_max = 2usize;
+            let max_runs: u64 = ctx.pick(150, 40_000);
+            let (runs, hot_points, max_points, reads, writes) = (AtomicU64::new(0), AtomicU64::new(0), AtomicU64::new(0), AtomicU64::new(0), AtomicU64::new(0));
+            let capped_pairs = AtomicU64::new(0);
+            let bound1_complete = AtomicBool::new(true);
+            let name = format!("D-shared-access-preemption/{}jobs/{}pairs/bound<={bound_max}", gjobs.len(), pairs.len());
+            ctx.universe(&name, pairs.len() as u64, |idx, l| {
+                let (a, b) = pairs[idx as usize];
+                let base = vec!["--guard-run".to_owned(), a.to_string(), b.to_string()];
+                if l.want_sample() {
+                    let mut o = J::obj();
+                    o.set("universe", J::s(name.clone()));
+                    o.set("index", J::i(idx));
+                    o.set("thread0", J::s(format!("{:?}", gjobs[a])));
+                    o.set("thread1", J::s(format!("{:?}", gjobs[b])));
+                    o.set("schedules", J::s("every choice vector with <= 2 preemptions over: thread start, call boundaries, every write to a guarded region, every read of a location some job writes"));
+                    l.sample(o);
+                }
+                l.nontrivial();
+                let check = |o: &guard::RunOut| -> Option<String> {
+                    reads.fetch_add(o.reads, Ordering::Relaxed);
+                    writes.fetch_add(o.writes, Ordering::Relaxed);
+                    for (t, j) in [a, b].into_iter().enumerate() {
+                        if o.results[t] != refs[j] {
+                            let k = o.results[t].iter().zip(&refs[j]).position(|(x, y)| x != y).unwrap_or(0);
+                            return Some(format!("thread {t} call #{k} {:?} returned digest {:x} but {:x} when the job runs alone", gjobs[j].get(k), o.results[t].get(k).copied().unwrap_or(0), refs[j].get(k).copied().unwrap_or(0)));
+                        }
+                        if o.probe[t] != refs[j] {
+                            return Some(format!("after the concurrent run, job {:?} repeated sequentially returns {:x?} instead of {:x?} (state left behind by the interleaving)", gjobs[j], o.probe[t], refs[j]));
+                        }
+                    }
+                    None
+                };
+                for bound in 1..=bound_max {
+                    let mut stats = guard::ExploreStats::default();
+                    let r = guard::explore(&|p| guard::run_child(&exe, &base, p, &hot).map(|x| x.0), &check, bound, max_runs, &mut stats);
+                    runs.fetch_add(stats.runs, Ordering::Relaxed);
+                    hot_points.fetch_add(stats.hot_points_seen, Ordering::Relaxed);
+                    max_points.fetch_max(stats.max_points as u64, Ordering::Relaxed);
+                    l.states(stats.runs);
+                    l.checked(stats.runs * 2 * (gjobs[a].len() + gjobs[b].len()) as u64);
+                    if stats.capped {
+                        capped_pairs.fetch_add(1, Ordering::Relaxed);
+                        if bound == 1 {
+                            bound1_complete.store(false, Ordering::Relaxed);
+                        }
+                    }
+                    match r {
+                        Err(e) => {
+                            l.violation("guard_engine", || format!("E4 engine failure on jobs {:?} / {:?}: {e}", gjobs[a], gjobs[b]));
+                            return;
+                        }
+                        Ok(Some((ch, msg, out))) => {
+                            l.violation("shared_access_interference", || {
+                                format!("threads run {:?} and {:?}
+preemption bound {bound}, choices at the branching points = {}
+{msg}
+schedule (scheduling points in execution order):
+{}", gjobs[a], gjobs[b], guard::choices_to_arg(&ch), guard::describe_points(&out.points, &region_names))
+                            });
+                            return;
+                        }
+                        Ok(None) => {}
+                    }
+                    if stats.capped {
+                        break;
+                    }
+                }
+            });
+            let mut e4 = J::obj();
+            e4.set("guarded_regions", J::Arr(region_names.iter().map(|n| J::s(n.clone())).collect()));
+            e4.set("library_writable_statics", J::i(region_names.len().saturating_sub(1) as u64));
+            e4.set("locations_written_by_some_job", J::i(hot.len() as u64));
+            e4.set("profile_runs", J::i(gjobs.len() as u64));
+            e4.set("profile_guarded_reads", J::i(solo_reads));
+            e4.set("profile_guarded_writes", J::i(solo_writes));
+            e4.set("executions", J::i(runs.load(Ordering::Relaxed)));
+            e4.set("guarded_reads_intercepted", J::i(reads.load(Ordering::Relaxed)));
+            e4.set("guarded_writes_intercepted", J::i(writes.load(Ordering::Relaxed)));
+            e4.set("hot_scheduling_points_seen", J::i(hot_points.load(Ordering::Relaxed)));
+            e4.set("max_points_in_one_execution", J::i(max_points.load(Ordering::Relaxed)));
+            e4.set("preemption_bound", J::i(bound_max as u64));
+            e4.set("pairs_capped", J::i(capped_pairs.load(Ordering::Relaxed)));
+            e4.set("bound_1_complete_for_all_pairs", J::Bool(bound1_complete.load(Ordering::Relaxed)));
+            e4.set("premise_of_call_level_scheduling", J::s(if hot.is_empty() { "holds for these jobs: no guarded location (library static or shared Beatmap struct) is written by any job, so calls of different threads commute at every finer grain" } else { "does not hold: some guarded location is written; schedules at the accesses were explored" }));
+            ctx.extra("shared_access_preemption", e4);
+        }
     }
 
     // ---- (C) free-running, sampling
